@@ -169,8 +169,32 @@ def mk_authblock(b):
     raise ValueError(b)
 
 
+class HsmCustKeyEncryptor(B2.CustKeyEncryptor):
+    """a caller's own customer-key unit (the documented extension point: a direct subclass of CustKeyEncryptor, e.g. a hardware crypto
+    unit) - here it simply delegates to a software unit it keeps inside"""
+
+    def __init__(self, inner):
+        self._inner = inner
+
+    customer_key = property(lambda self: self._inner.customer_key)
+
+    def encrypt(self, plaintext):
+        return self._inner.encrypt(plaintext)
+
+    def decrypt(self, ciphertext):
+        return self._inner.decrypt(ciphertext)
+
+
 def mk_encryptor(b, public_only=False, role="writer"):
-    """The encryptor/decryptor object that opens (and writes) block b; None when nobody can (default ECC key)."""
+    """The encryptor/decryptor object that opens (and writes) block b; None when nobody can (default ECC key).  A quarter of the
+    customer-key units are the caller's own CustKeyEncryptor subclass (chosen from the block's data, independently for writer and reader)."""
+    e = _mk_encryptor(b, public_only, role)
+    if b["kind"] == "cust" and (b["crypto_key"][1] + 2 * (role == "reader")) % 4 == 0:
+        return HsmCustKeyEncryptor(e)
+    return e
+
+
+def _mk_encryptor(b, public_only=False, role="writer"):
     if b["kind"] == "cust":
         ck = b.get("customer_key")
         if ck and role == "reader" and ck[1] % 3 == 0:
